@@ -520,6 +520,13 @@ def behaviour(r):
             tuple((t["name"], t["error"] is None) for t in r.get("tests") or ()))
 
 
+def unbound_type(d):
+    """Name of the type in a `No such type: T` failure class, else None."""
+    import re
+    m = re.search(r"No such type: `?([A-Za-z_0-9]+)", d or "")
+    return m.group(1) if m else None
+
+
 def norm_msg(m):
     import re
     m = re.sub(r"\d+", "N", m or "")
@@ -770,7 +777,7 @@ def typed_values(quick):
     return vals
 
 
-TYPE_TEXT = {'Int': 'Int', 'String': 'String', 'Float': 'Float', 'Bool': 'Bool', 'Unit': 'Unit', 'List<Int>': 'List<Int>', 'List<String>': 'List<String>', 'List<List<Int>>': 'List<List<Int>>', 'Option<Int>': 'Option<Int>', 'Result-ok': 'Result<Int, String>', 'Tuple': '(Int, String)', 'Tuple1': '(Int,)', 'struct': 'Pt', 'generic-struct': 'Box<Int>', 'closure-1': 'Fun<(Int), Int>', 'closure-0': 'Fun<(), Int>', 'closure-2-ret': 'Fun<(Int, String), String>', 'Dict': 'Dict<String, Int>', 'enum-nullary': 'Col', 'enum-payload': 'Col', 'nested-option': 'Option<Option<Int>>', 'list-option': 'List<Option<Int>>', 'list-closure': 'List<Fun<(Int), Int>>', 'option-tuple': 'Option<(Int, String)>', 'list-tuple': 'List<(Int, String)>', 'closure-returning-closure': 'Fun<(Int), Fun<(Int), Int>>', 'path': 'Path', 'list-unit': 'List<Unit>'}
+TYPE_TEXT = {'Int': 'Int', 'String': 'String', 'Float': 'Float', 'Bool': 'Bool', 'Unit': 'Unit', 'List<Int>': 'List<Int>', 'List<String>': 'List<String>', 'List<List<Int>>': 'List<List<Int>>', 'Option<Int>': 'Option<Int>', 'Result-ok': 'Result<Int, String>', 'Tuple': '(Int, String)', 'Tuple1': '(Int,)', 'struct': 'Pt', 'generic-struct': 'Box<Int>', 'closure-1': 'Fun<(Int), Int>', 'closure-0': 'Fun<(), Int>', 'closure-2-ret': 'Fun<(Int, String), String>', 'Dict': 'Dict<Int>', 'enum-nullary': 'Col', 'enum-payload': 'Col', 'nested-option': 'Option<Option<Int>>', 'list-option': 'List<Option<Int>>', 'list-closure': 'List<Fun<(Int), Int>>', 'option-tuple': 'Option<(Int, String)>', 'list-tuple': 'List<(Int, String)>', 'closure-returning-closure': 'Fun<(Int), Fun<(Int), Int>>', 'path': 'Path', 'list-unit': 'List<Unit>'}
 
 
 def typed_programs(quick):
